@@ -693,6 +693,11 @@ func (c *checker) checkSite(tc *tcase, rnd *rand.Rand, selftest bool) {
 		if e.RdSel > 1 {
 			c.stat("redirected_by_a_later_rule")
 		}
+		if e.Kind == "redir" && e.A == q.target() {
+			// the only loop guard is the setup's from != to: a catch-all or a rewritten path can be
+			// redirected to the very URI that was requested. Noted, not judged (it is what the documentation says).
+			c.stat("redirect_to_the_requested_uri_noted")
+		}
 		if e.Free {
 			c.stat("query_carry_unjudged")
 			if p1[k].Saw && p1[k].SawQuery == e.B {
